@@ -204,14 +204,28 @@ class PseudoOperand(Operand):
             else:
                 self.value = Value.create_from_str(operand_string, instruction)
 
-        if instruction.is_pseudo_define:
+        if instruction.is_pseudo_define and self.value.is_numeric() and not self.value.is_negative():
             if self.operand_string.startswith("$") and len(self.operand_string) > 3:
                 self.value = ExtendedNumericValue(self.value.int)
             elif self.value.hex_len() == 2:
                 self.value = DirectNumericValue(self.value.int)
 
     def resolve_symbols(self, symbol_table):
+        if self.instruction.mnemonic in ["FCB", "FDB", "RMB"] and (self.value.is_symbol() or self.value.is_expression()):
+            self.value = self.value.resolve(symbol_table)
         return self
+
+    def single_value(self, size_hint):
+        """
+        The value of an FCB or FDB with a single operand. A label or label expression is
+        filled in once addresses are known.
+        """
+        if self.value.is_address() or self.value.is_address_expression():
+            return NumericValue(0, size_hint=size_hint)
+        signed_value = -self.value.int if self.value.is_negative() else self.value.int
+        if size_hint == 2 and not -128 <= signed_value <= 255:
+            raise OperandTypeError("[{}] does not fit in a byte".format(self.operand_string))
+        return NumericValue(signed_value, size_hint=size_hint)
 
     def translate(self):
         if self.instruction.mnemonic == "FCB":
@@ -220,7 +234,7 @@ class PseudoOperand(Operand):
                 size=self.value.byte_len(),
                 max_size=self.value.byte_len()
             ) if self.value.is_multi_byte() else CodePackage(
-                additional=NumericValue(self.value.int, size_hint=2),
+                additional=self.single_value(2),
                 size=1,
                 max_size=1
             )
@@ -231,12 +245,14 @@ class PseudoOperand(Operand):
                 size=self.value.byte_len(),
                 max_size=self.value.byte_len()
             ) if self.value.is_multi_word() else CodePackage(
-                additional=NumericValue(self.value.int, size_hint=4),
+                additional=self.single_value(4),
                 size=2,
                 max_size=2
             )
 
         if self.instruction.mnemonic == "RMB":
+            if not self.value.is_numeric() or (self.value.is_negative() and self.value.int != 0):
+                raise OperandTypeError("[{}] is not a valid number of bytes to reserve".format(self.operand_string))
             return CodePackage(
                 additional=NumericValue(0, size_hint=self.value.int*2),
                 size=self.value.int,
